@@ -7,7 +7,7 @@ import subprocess
 import sys
 
 HERE = os.path.dirname(os.path.dirname(os.path.abspath(__file__)))
-extra = {'C13-B': ['C13', 'C16'], 'C05-B': ['C17'], 'C17-B': ['C17'], 'C02-A': ['C02', 'C03', 'C05'], 'C05': ['C05', 'C10'],
+extra = {'C06-N': ['C10', 'C11'], 'C13-B': ['C13', 'C16'], 'C05-B': ['C17'], 'C17-B': ['C17'], 'C02-A': ['C02', 'C03', 'C05'], 'C05': ['C05', 'C10'],
          'C10-B': ['C10', 'C05'], 'C12-E': ['C12', 'C16'], 'C18-F': ['C18', 'C12'], 'C11-F': ['C11', 'C10'],
          # round 5: the eight "grace period measured with the wall clock" variants break their nominal property only
          # by never finishing the operation; the owners of that are C02 / C03 / C05
